@@ -102,6 +102,12 @@ example : (overlapMemoRun wSchema Fixes.all (suffixVr.doc (vrDoc "a"))).1 = 0 ‚Ü
       (by unfold Silent; decide +kernel) (by decide) (by decide))
     (by unfold NamesNonEmpty; decide) (by rw [‚Üê wfIdsB_iff]; decide)
 
+example : FullStatement_alpha_variables_all26 suffixVr wSchema Fixes.all (vrDoc "a") :=
+  alpha_variables_all26 suffixVr suffix_inj wSchema Fixes.all headVars_all (vrDoc "a")
+    (parentsAgree_of_checks wSchema (vrDoc "a") (by decide) (by unfold Silent; decide +kernel)
+      (by unfold Silent; decide +kernel) (by decide) (by decide))
+    (by unfold NamesNonEmpty; decide) (by rw [‚Üê wfIdsB_iff]; decide)
+
 /-- injectivity is needed: `{ a(x: $a) a(x: $b) }` is reported ("different arguments"); renaming both variables to `$c`
     hides the conflict -/
 theorem alpha_variables_overlap_needs_injectivity :
